@@ -16,6 +16,11 @@ impl Report {
     {
         Report(())
     }
+    /// Inherent `to_string` shadows the blanket `ToString` (which would drag the whole `core::fmt`
+    /// machinery into every `map_err(|e| Report::msg(e.to_string()))`); error text is never the subject.
+    pub fn to_string(&self) -> String {
+        String::new()
+    }
     pub fn wrap_err<D>(self, _msg: D) -> Self
     where
         D: fmt::Display + Send + Sync + 'static,
